@@ -175,6 +175,7 @@ fn run_compute(p: &Prog) -> String {
     }
 }
 
+thread_local! { static LIMITS: std::cell::RefCell<(u64, u64)> = std::cell::RefCell::new((12, 8)); }
 thread_local! { static DIAG_DETAIL: std::cell::RefCell<&'static str> = std::cell::RefCell::new(""); }
 
 fn overflow_checks_on() -> bool {
@@ -270,12 +271,13 @@ fn shuffle<X>(rng: &mut Rng, v: &mut Vec<X>) {
 
 /// acyclic, unique names, every by-value name defined; returned in rank order (dependencies first)
 fn gen_wf(rng: &mut Rng) -> Prog {
-    let n = 1 + rng.below(12) as usize;
+    let (max_structs, max_fields) = LIMITS.with(|l| *l.borrow());
+    let n = 1 + rng.below(max_structs) as usize;
     let mut names: Vec<u64> = (1..=n as u64).collect();
     shuffle(rng, &mut names);
     let mut p: Prog = Vec::new();
     for i in 0..n {
-        let nf = match rng.below(10) { 0 => 0, 1 => 8, _ => rng.below(9) } as usize;
+        let nf = match rng.below(10) { 0 => 0, 1 => max_fields, _ => rng.below(max_fields + 1) } as usize;
         let lower: Vec<u64> = names[..i].to_vec();
         let fs = (0..nf).map(|_| gen_ty(rng, &lower, &names, 0)).collect();
         p.push((names[i], fs));
@@ -312,6 +314,7 @@ fn main() {
     let cases = arg_u64("--cases", 300);
     let chk = overflow_checks_on();
     println!("#profile overflow_checks={}", chk);
+    LIMITS.with(|l| *l.borrow_mut() = (arg_u64("--max-structs", 12).max(1), arg_u64("--max-fields", 8)));
     if let Some(f) = arg("--needles") {
         if let Ok(txt) = std::fs::read_to_string(&f) {
             NEEDLES.with(|n| *n.borrow_mut() = txt.lines().filter_map(|l| l.split_once('\t')).map(|(k, v)| (k.to_string(), v.to_string())).filter(|(_, v)| v.len() >= 6).collect());
@@ -355,6 +358,12 @@ fn main() {
     // layout_of on its own (the table + arrays + the Struct panic)
     for p in ["I8", "I16", "I32", "I64", "U8", "U16", "U32", "U64", "F32", "F64", "Bool", "Str", "FnPtr", "Param", "Void"] {
         let t = T::P(p);
+        let o = match guarded(|| layout_of(&to_air(&t))) { Ok(l) => format!("OSizeAlign {} {}", l.size, l.align), Err(m) => classify_panic(&m).to_string() };
+        println!("QLayoutOf ({})\t{}\tT:{}\tlayout_of", coq_ty(&t), o, compact_ty(&t));
+    }
+    // layout_of has no program context: by-value structs (also inside arrays) are refused, behind pointers they are fine
+    for t in [T::Struct(1), T::Arr(Box::new(T::Struct(2)), 3), T::Arr(Box::new(T::Arr(Box::new(T::Struct(3)), 2)), 0),
+              T::Ptr(Box::new(T::Struct(1))), T::Slice(Box::new(T::Arr(Box::new(T::Struct(1)), 2))), T::Arr(Box::new(T::Ptr(Box::new(T::Struct(2)))), 4)] {
         let o = match guarded(|| layout_of(&to_air(&t))) { Ok(l) => format!("OSizeAlign {} {}", l.size, l.align), Err(m) => classify_panic(&m).to_string() };
         println!("QLayoutOf ({})\t{}\tT:{}\tlayout_of", coq_ty(&t), o, compact_ty(&t));
     }
